@@ -94,3 +94,48 @@ Theorem check_unique_sound_reachable : forall sch s f fuel (txs : list tx),
   fst (check_unique sch false s f true (run_txs sch fuel st_empty txs)) = [].
 Proof. exact check_unique_sound_reachable_lemma. Qed.
 Print Assumptions check_unique_sound_reachable.
+
+(* completeness, entry by entry - the forms that matter when "the bucket is not there at all": an absent
+   back-reference / link set reads as [], an absent set-index key bucket as [].  A referrer that is not in its
+   target's back-reference set is reported whatever the reason (entry removed, bucket emptied, bucket removed, or
+   the target never had a referrer and the fk field was (re-)pointed to it below the API); likewise a link
+   without its reverse entry and a set value without its index entry. *)
+Theorem missing_backref_reported : forall sch st s f t b nl i,
+  In (JCons s (CFkIndex f t b nl)) (jobs sch) ->
+  present sch st s i = true -> nonempty (fv_bytes (get_field sch st s i f)) = true ->
+  ~ In i (get_set sch st t (fv_bytes (get_field sch st s i f)) b) ->
+  fst (check_all sch false st) <> [].
+Proof. exact missing_backref_reported_lemma. Qed.
+Print Assumptions missing_backref_reported.
+
+Theorem missing_reverse_link_reported : forall sch st s lf os of_ i x,
+  In (JLink s (lf, os, of_)) (jobs sch) ->
+  present sch st s i = true -> In x (get_set sch st s i lf) -> ~ In i (get_set sch st os x of_) ->
+  fst (check_all sch false st) <> [].
+Proof. exact missing_reverse_link_reported_lemma. Qed.
+Print Assumptions missing_reverse_link_reported.
+
+Theorem missing_set_entry_reported : forall sch st s f i v,
+  In (JCons s (CSetIdx f)) (jobs sch) ->
+  present sch st s i = true -> In v (get_set sch st s i f) -> ~ In i (sidx_ids st (root_of sch s) f v) ->
+  fst (check_all sch false st) <> [].
+Proof. exact missing_set_entry_reported_lemma. Qed.
+Print Assumptions missing_set_entry_reported.
+
+(* ... and one fix run puts them back, also into a set / bucket that did not exist before the run *)
+Theorem fix_restores_backrefs : forall sch st s f t b nl i,
+  wf_c09 sch = true -> In (JCons s (CFkIndex f t b nl)) (jobs sch) ->
+  let st' := snd (check_all sch true st) in
+  present sch st' s i = true -> nonempty (fv_bytes (get_field sch st' s i f)) = true ->
+  present sch st' t (fv_bytes (get_field sch st' s i f)) = true ->
+  In i (get_set sch st' t (fv_bytes (get_field sch st' s i f)) b).
+Proof. exact fix_restores_backrefs_lemma. Qed.
+Print Assumptions fix_restores_backrefs.
+
+Theorem fix_restores_reverse_links : forall sch st s lf os of_ i x,
+  wf_c09 sch = true -> In (JLink s (lf, os, of_)) (jobs sch) ->
+  let st' := snd (check_all sch true st) in
+  present sch st' s i = true -> In x (get_set sch st' s i lf) ->
+  present sch st' os x = true /\ In i (get_set sch st' os x of_).
+Proof. exact fix_restores_reverse_links_lemma. Qed.
+Print Assumptions fix_restores_reverse_links.
